@@ -147,6 +147,26 @@ pub(crate) fn escape_quote(string: &str) -> String {
     string.replace('\'', "\\'").replace('\n', "\\n")
 }
 
+/// A unit name as the parser reads it back: as it is when it is an
+/// ordinary identifier, between double quotes when it would otherwise be
+/// taken for something else (`in` and `to` are also the conversion arrow,
+/// `%` is also a postfix operator, a name can contain spaces).
+pub(crate) fn name_text(name: &str) -> String {
+    use crate::parsing::text_query::{parse_expr, Token, TokenIterator};
+    let mut tokens = TokenIterator::new(name).peekable();
+    let plain = match parse_expr(&mut tokens) {
+        Expr::Unit { name: ref parsed } => {
+            parsed == name && matches!(tokens.peek(), None | Some(Token::Eof))
+        }
+        _ => false,
+    };
+    if plain {
+        name.to_owned()
+    } else {
+        format!("\"{}\"", name.replace('\\', "\\\\").replace('"', "\\\""))
+    }
+}
+
 /// True if the printed form of the expression begins with a unary `+` or `-`.
 pub(crate) fn starts_with_sign(expr: &Expr) -> bool {
     match *expr {
@@ -163,7 +183,7 @@ impl fmt::Display for Expr {
     fn fmt(&self, fmt: &mut fmt::Formatter<'_>) -> fmt::Result {
         fn recurse(expr: &Expr, fmt: &mut fmt::Formatter<'_>, prec: Precedence) -> fmt::Result {
             match *expr {
-                Expr::Unit { ref name } => write!(fmt, "{}", name),
+                Expr::Unit { ref name } => write!(fmt, "{}", name_text(name)),
                 Expr::Quote { ref string } => write!(fmt, "'{}'", escape_quote(string)),
                 Expr::Const { ref value } => {
                     let (_exact, val) = value.to_string(10, Digits::Default);
